@@ -407,6 +407,17 @@ PTR_PROBES = [
 ]
 
 
+SIZE_PROBES = [
+    # the comma operator yields a value: arrays and functions decay, the result is not an lvalue and has lost its qualifiers
+    "sizeof(0, arr) == sizeof(int *)", "sizeof(1, 2u, arr) == sizeof(int *)", "sizeof((l, arr)) == sizeof(int *)", "sizeof(0, \"abc\") == sizeof(char *)", "sizeof(0, sq.am) == sizeof(int *)",
+    "sizeof(0, fn) == sizeof(int (*)(void))", "sizeof(arr) == 3 * sizeof(int)", "sizeof(\"abc\") == 4", "sizeof(sq.am) == 2 * sizeof(int)", "sizeof(*pa) == 3 * sizeof(int)",
+    "sizeof(0 ? arr : arr) == sizeof(int *)", "sizeof(+*pa) == sizeof(int *)"[:0] or "sizeof(&arr[0]) == sizeof(int *)", "sizeof(*&arr) == 3 * sizeof(int)", "sizeof((arr)) == 3 * sizeof(int)",
+    "sizeof(typeof((0, arr))) == sizeof(int *)", "sizeof(typeof(arr)) == 3 * sizeof(int)", "sizeof(typeof((arr))) == 3 * sizeof(int)", "sizeof(typeof(0, carr[0])) == sizeof(int)",
+    "_Generic(&(typeof((0, carr[0]))){0}, int *: 1, const int *: 0)", "_Generic(&(typeof(carr[0])){0}, int *: 0, const int *: 1)", "_Generic(&(typeof((1, csq.m))){0}, int *: 1, default: 0)",
+    "sizeof(1 ? carr : carr) == sizeof(int *)", "sizeof((char)1, arr) == sizeof(int *)", "sizeof(0, (0, arr)) == sizeof(int *)",
+]
+
+
 def ptr_enum(ctx):
     for ti in range(3):
         yield {"t": ti}
@@ -427,6 +438,10 @@ def ptr_check(case, ctx):
             continue
         lines.append("int k%d = _Generic((%s), %s);" % (i, e, PLIST))
         probes.append(("k%d" % i, idx, e, "ptr", None, None, False))
+    # conversions that _Generic cannot see (its controlling expression is converted anyway): observed through sizeof/typeof
+    for j, e in enumerate(SIZE_PROBES):
+        lines.append("int k%d = (%s);" % (1000 + j, e))
+        probes.append(("k%d" % (1000 + j), 1, e, "ptr", None, None, False))
     src = "\n".join(lines) + "\n"
     res.n += len(probes)
     p = cproc.cc(ctx, src.encode(), target, "plain", timeout=60)
